@@ -23,6 +23,8 @@ pub struct Schedule {
   pub hash_seed: u64,
   /// FIFO (false) or LIFO (true) choice of the waiter woken by notify_one
   pub notify_lifo: bool,
+  /// inject spurious condvar wake-ups (3 % of the scheduling steps)
+  pub spurious: bool,
 }
 
 #[derive(Clone, Debug)]
@@ -108,12 +110,15 @@ pub(crate) enum Wait {
   Write(usize),
   Lock(usize),
   Cond(usize, usize),
+  /// (condvar, mutex, deadline on the virtual clock)
+  CondTimed(usize, usize, u64),
   Sleep(u64),
   Join(usize),
   Idle { time: bool },
 }
 
 struct Th {
+  timed_out: bool,
   name: String,
   lib: bool,
   wait: Wait,
@@ -134,6 +139,7 @@ struct SchedSt {
   walk: Option<(u64, u8)>,
   rng: u64,
   notify_lifo: bool,
+  spurious: bool,
 }
 
 struct State {
@@ -231,6 +237,7 @@ impl State {
         Some(ls) => ls.writer.is_none() && ls.readers.is_empty(),
       },
       Wait::Cond(_, _) => false,
+      Wait::CondTimed(_, _, _) => false,
       Wait::Sleep(t) => self.clock >= *t,
       Wait::Join(t) => self.threads[*t].finished,
       Wait::Idle { .. } => false,
@@ -276,6 +283,7 @@ impl State {
       Wait::Write(l) => format!("Write(L{}{})", self.lock_name(l), self.holders(l)),
       Wait::Lock(l) => format!("Lock(M{}{})", self.lock_name(l), self.holders(l)),
       Wait::Cond(c, _) => format!("Cond(C{})", self.lock_name(c)),
+      Wait::CondTimed(c, _, d) => format!("CondTimed(C{}, until {})", self.lock_name(c), d),
       Wait::Sleep(t) => format!("Sleep(until {})", t),
       Wait::Join(t) => format!("Join({})", self.threads[t].name),
       Wait::Idle { time } => format!("Idle(time={})", time),
@@ -302,6 +310,45 @@ impl State {
   fn choose(&mut self) -> Option<usize> {
     loop {
       let n = self.threads.len();
+      // timed condvar waits whose deadline has passed turn into plain re-acquisitions
+      for t in 0..n {
+        if self.threads[t].finished {
+          continue;
+        }
+        if let Wait::CondTimed(c, m, dl) = self.threads[t].wait {
+          if self.clock >= dl {
+            if let Some(ws) = self.conds.get_mut(&c) {
+              ws.retain(|x| *x != t);
+              if ws.is_empty() {
+                self.conds.remove(&c);
+              }
+            }
+            self.threads[t].wait = Wait::Lock(m);
+            self.threads[t].timed_out = true;
+          }
+        }
+      }
+      if self.sched.spurious {
+        // spurious wake-up: some condvar waiter re-acquires its mutex without a notify
+        let r = splitmix(&mut self.sched.rng);
+        if r % 100 < 3 {
+          let ws: Vec<usize> = (0..n)
+            .filter(|t| !self.threads[*t].finished && matches!(self.threads[*t].wait, Wait::Cond(_, _)))
+            .collect();
+          if !ws.is_empty() {
+            let t = ws[((r >> 20) as usize) % ws.len()];
+            if let Wait::Cond(c, m) = self.threads[t].wait {
+              if let Some(w) = self.conds.get_mut(&c) {
+                w.retain(|x| *x != t);
+                if w.is_empty() {
+                  self.conds.remove(&c);
+                }
+              }
+              self.threads[t].wait = Wait::Lock(m);
+            }
+          }
+        }
+      }
       let en: Vec<usize> = (0..n).filter(|t| self.enabled(*t)).collect();
       if !en.is_empty() {
         return Some(self.pick(&en));
@@ -317,6 +364,9 @@ impl State {
       for th in &self.threads {
         if !th.finished {
           if let Wait::Sleep(t) = th.wait {
+            earliest = Some(earliest.map_or(t, |e: u64| e.min(t)));
+          }
+          if let Wait::CondTimed(_, _, t) = th.wait {
             earliest = Some(earliest.map_or(t, |e: u64| e.min(t)));
           }
         }
@@ -369,7 +419,7 @@ impl State {
       if !th.finished {
         any_unfinished = true;
         match th.wait {
-          Wait::Cond(_, _) => {}
+          Wait::Cond(_, _) | Wait::CondTimed(_, _, _) => {}
           _ => any_lock = true,
         }
       }
@@ -547,6 +597,35 @@ pub(crate) fn cond_wait(ctx: &Ctx, c: usize, m: usize) {
   }
 }
 
+/// like cond_wait with a deadline `ns` from now on the virtual clock; true = timed out
+pub(crate) fn cond_wait_timed(ctx: &Ctx, c: usize, m: usize, ns: u64) -> bool {
+  {
+    let mut st = lock_state(&ctx.exec);
+    if st.aborted {
+      drop(st);
+      if std::thread::panicking() {
+        park_forever(ctx);
+      }
+      unwind_abort();
+    }
+    st.release(m, ctx.tid, true);
+    st.conds.entry(c).or_default().push(ctx.tid);
+    st.threads[ctx.tid].timed_out = false;
+  }
+  let deadline = {
+    let st = lock_state(&ctx.exec);
+    st.clock.saturating_add(ns)
+  };
+  match sched_point(Wait::CondTimed(c, m, deadline)) {
+    Mode::Model(_) => {}
+    _ => park_forever(ctx),
+  }
+  let mut st = lock_state(&ctx.exec);
+  let t = st.threads[ctx.tid].timed_out;
+  st.threads[ctx.tid].timed_out = false;
+  t
+}
+
 pub(crate) fn cond_notify(ctx: &Ctx, c: usize, all: bool) {
   {
     let mut st = lock_state(&ctx.exec);
@@ -567,8 +646,9 @@ pub(crate) fn cond_notify(ctx: &Ctx, c: usize, all: bool) {
       }
     }
     for t in woken {
-      if let Wait::Cond(_, m) = st.threads[t].wait {
-        st.threads[t].wait = Wait::Lock(m);
+      match st.threads[t].wait {
+        Wait::Cond(_, m) | Wait::CondTimed(_, m, _) => st.threads[t].wait = Wait::Lock(m),
+        _ => {}
       }
     }
   }
@@ -777,6 +857,7 @@ pub(crate) fn spawn_in(ctx: &Ctx, name: Option<String>, lib: bool, body: Box<dyn
     st.threads.push(Th {
       name: nm,
       lib,
+      timed_out: false,
       wait: Wait::Run,
       finished: false,
       cv: Arc::new(StdCondvar::new()),
@@ -805,6 +886,7 @@ where
       threads: vec![Th {
         name: "main".into(),
         lib: false,
+        timed_out: false,
         wait: Wait::Run,
         finished: false,
         cv: Arc::new(StdCondvar::new()),
@@ -825,6 +907,7 @@ where
         walk: cfg.schedule.walk,
         rng: cfg.schedule.walk.map(|w| w.0).unwrap_or(0),
         notify_lifo: cfg.schedule.notify_lifo,
+        spurious: cfg.schedule.spurious,
       },
       choice_points: 0,
       taken: Vec::new(),
